@@ -197,6 +197,33 @@ func (x *Exec) evalArgs(fn *types.Func, call *ast.CallExpr, st *State) []*Value 
 func (x *Exec) callFunc(fn *types.Func, recv *Value, call *ast.CallExpr, st *State) []*Value {
 	fn = fn.Origin()
 	key := funcKey(fn)
+	// contracts specialised on the static (named, non-interface) type of an argument that is
+	// passed to an interface parameter: key "pkg.Func@argpkg.ArgType"
+	if sig := fn.Type().(*types.Signature); recv == nil && len(call.Args) == sig.Params().Len() && !sig.Variadic() {
+		for i, a := range call.Args {
+			if _, isIface := types.Unalias(sig.Params().At(i).Type()).Underlying().(*types.Interface); !isIface {
+				continue
+			}
+			at := x.typeOf(a)
+			if n, ok := types.Unalias(at).(*types.Named); ok {
+				if _, argIface := n.Underlying().(*types.Interface); argIface {
+					continue
+				}
+				skey := key + "@" + qualName(n)
+				if c := x.eng.db.C[skey]; c != nil {
+					var args []*Value
+					for j, b := range call.Args {
+						v := x.eval(b, st)
+						if j != i {
+							v = x.coerce(v, sig.Params().At(j).Type())
+						}
+						args = append(args, v)
+					}
+					return x.applyContract(c, fn, nil, args, st, call)
+				}
+			}
+		}
+	}
 	args := x.evalArgs(fn, call, st)
 	if st.guard == False {
 		return x.dummyResults(fn, st)
@@ -438,12 +465,33 @@ func (x *Exec) applyContract(c *Contract, fn *types.Func, recv *Value, args []*V
 	for _, m := range c.Modifies {
 		x.havocSpecLoc(m, sc, st, c)
 	}
+	// results declared fresh are allocated from the caller's frontier, so that their
+	// freshness is syntactic (needed for loop frames)
+	freshRes := false
+	for _, e := range c.Ensures {
+		if strings.Contains(e.Src, "fresh(result)") {
+			freshRes = true
+		}
+	}
+	var freshRef *Term
+	if freshRes && sig.Results().Len() > 0 && isRefLike(sig.Results().At(0).Type()) {
+		freshRef = x.alloc(st)
+	}
 	x.bumpAlloc(st)
 	// results
 	var results []*Value
 	for i := 0; i < sig.Results().Len(); i++ {
 		rt := sig.Results().At(i).Type()
-		v := x.symbolic(st, rt, "ret."+fn.Name())
+		var v *Value
+		if i == 0 && freshRef != nil {
+			if isPointer(rt) {
+				v = &Value{T: rt, P: &Pointer{Base: freshRef}}
+			} else {
+				v = &Value{T: rt, Tm: freshRef}
+			}
+		} else {
+			v = x.symbolic(st, rt, "ret."+fn.Name())
+		}
 		results = append(results, v)
 		name := "result"
 		if i > 0 {
@@ -460,6 +508,7 @@ func (x *Exec) applyContract(c *Contract, fn *types.Func, recv *Value, args []*V
 	for _, e := range c.Ensures {
 		x.assume(st, x.evalSpecBool(e, sc, st))
 	}
+	x.assumeHeapWF(st)
 	return results
 }
 
